@@ -17,8 +17,64 @@ pub struct ValidStream {
     pub foreign: bool,
 }
 
+thread_local! {
+    /// set by generators whose property does not need RFC-table validity (C05, C07, C08): the foreign encoder
+    /// may then spell length 258 as 284 + 31 extra bits
+    pub static ALLOW_ALT258: std::cell::Cell<bool> = const { std::cell::Cell::new(false) };
+}
+
+/// A stream whose ENCODED length is a multiple of 65536 minus k (k = 0..8), or of 256 minus k: stored blocks of
+/// computed sizes in front of a short final Huffman block. Decoders that count input in narrow integers, or
+/// hand back read-ahead bytes modulo something, meet their boundary here.
+fn sized_stream(rng: &mut Rng, zlib: bool) -> ValidStream {
+    let tail_plain: Vec<u8> = { let n = rng.range(1, 12); rng.bytes(n) };
+    let fin = miniz_oxide::deflate::compress_to_vec(&tail_plain, 1); // one final (fixed or stored) block
+    let modulus = rng.pick(&[65536usize, 65536, 65536, 256]);
+    let m = if modulus == 256 { rng.range(2, 40) } else { rng.range(1, 2) };
+    let k = rng.range(0, 8);
+    let hdr = if zlib { 2 } else { 0 };
+    let trailer = if zlib { 4 } else { 0 };
+    // what the property calls the encoded length is deflate data + header + trailer; the boundary of interest is
+    // where the deflate data ends (read-ahead is handed back there), so aim that point
+    let deflate_len = modulus * m - k - if rng.chance(1, 2) { 0 } else { hdr };
+    let mut room = deflate_len.saturating_sub(fin.len());
+    let mut body: Vec<u8> = Vec::with_capacity(deflate_len + 8);
+    let mut plain: Vec<u8> = Vec::new();
+    while room >= 5 {
+        let l = (room - 5).min(65535).min(if room - 5 > 65535 + 5 { 65535 } else { room - 5 });
+        // leave at least 5 bytes for a following stored header if something remains
+        let l = if room - 5 - l > 0 && room - 5 - l < 5 { l - 5 } else { l };
+        body.push(0);
+        body.extend_from_slice(&(l as u16).to_le_bytes());
+        body.extend_from_slice(&(!(l as u16)).to_le_bytes());
+        let d = rng.bytes(l);
+        body.extend_from_slice(&d);
+        plain.extend_from_slice(&d);
+        room -= 5 + l;
+    }
+    body.extend_from_slice(&fin);
+    plain.extend_from_slice(&tail_plain);
+    let mut bytes = Vec::with_capacity(body.len() + 6);
+    if zlib {
+        bytes.extend_from_slice(&[0x78, 0x01]);
+    }
+    bytes.extend_from_slice(&body);
+    if zlib {
+        bytes.extend_from_slice(&refinf::adler32_def(1, &plain).to_be_bytes());
+    }
+    let _ = trailer;
+    let v = refinf::inflate(&bytes, &Opts::flat(zlib));
+    if v.verdict != Verdict::Valid || v.out != plain || v.consumed != bytes.len() {
+        panic!("HARNESS: sized_stream built a stream the reference inflater does not accept: {:?}", v.verdict);
+    }
+    ValidStream { enc_len: bytes.len(), plain_len: plain.len(), max_dist: 0, cinfo: 7, bytes, foreign: true }
+}
+
 /// A valid stream from the foreign encoder (70 %) or from the crate's own compressor (30 %).
 pub fn valid_stream(rng: &mut Rng, zlib: bool, target: usize, max_dist: usize, st_feat: Option<&mut Vec<&'static str>>) -> ValidStream {
+    if target >= 200 && max_dist >= 32768 && rng.chance(1, 40) {
+        return sized_stream(rng, zlib);
+    }
     if rng.chance(7, 10) || max_dist < 32768 {
         // 6 %: "window edge" family (first part produces exactly P bytes, next token sits on the edge)
         let edge = if max_dist >= 32768 && rng.chance(6, 100) {
@@ -26,7 +82,7 @@ pub fn valid_stream(rng: &mut Rng, zlib: bool, target: usize, max_dist: usize, s
         } else {
             0
         };
-        let cfg = GenCfg { zlib, target: if edge > 0 { target.min(3000) } else { target }, spec: Spec::None, max_dist, edge };
+        let cfg = GenCfg { zlib, target: if edge > 0 { target.min(3000) } else { target }, spec: Spec::None, max_dist, edge, alt258: ALLOW_ALT258.with(|c| c.get()) && rng.chance(1, 3) };
         let s = foreign::generate(rng, &cfg);
         let v = refinf::inflate(&s.bytes, &Opts::flat(zlib));
         if v.verdict != Verdict::Valid || v.out != s.plain || v.consumed != s.enc_len {
@@ -115,7 +171,7 @@ pub fn add_prelude(rng: &mut Rng, s: &mut Script, valid_premise: bool) {
             let spec = foreign::ALL_SPECS[rng.usize_below(foreign::ALL_SPECS.len())];
             let zl2 = zl || spec.is_zlib();
             s.set("prelude_zlib", zl2 as i64);
-            let cfg = GenCfg { zlib: zl2, target: rng.range(0, 600), spec, max_dist: 32768, edge: 0 };
+            let cfg = GenCfg { zlib: zl2, target: rng.range(0, 600), spec, max_dist: 32768, edge: 0, alt258: false };
             foreign::generate(rng, &cfg).bytes
         }
         2 => {
@@ -346,7 +402,7 @@ pub fn gen_c04(rng: &mut Rng, _i: u64, tier: Tier) -> Script {
                 spec = Spec::DistBeforeStart;
             }
         }
-        let cfg = GenCfg { zlib, target: if edge > 0 { target.min(1500) } else { target }, spec, max_dist: 32768, edge };
+        let cfg = GenCfg { zlib, target: if edge > 0 { target.min(1500) } else { target }, spec, max_dist: 32768, edge, alt258: false };
         let st = foreign::generate(rng, &cfg);
         s.set("spec", spec as i64 + 1);
         stream = st.bytes;
@@ -541,7 +597,14 @@ fn some_stream(rng: &mut Rng, zlib: bool, target: usize, s: &mut Script) -> (Vec
     }
 }
 
-pub fn gen_c07(rng: &mut Rng, _i: u64, tier: Tier) -> Script {
+pub fn gen_c07(rng: &mut Rng, i: u64, tier: Tier) -> Script {
+    ALLOW_ALT258.with(|c| c.set(true));
+    let s = gen_c07_inner(rng, i, tier);
+    ALLOW_ALT258.with(|c| c.set(false));
+    s
+}
+
+fn gen_c07_inner(rng: &mut Rng, _i: u64, tier: Tier) -> Script {
     let mut s = Script::new("C07", "dec");
     let zlib = rng.chance(1, 2);
     s.set("zlib", zlib as i64);
@@ -664,7 +727,14 @@ pub fn gen_c07(rng: &mut Rng, _i: u64, tier: Tier) -> Script {
 // C08
 // ------------------------------------------------------------------------------------------------
 
-pub fn gen_c08(rng: &mut Rng, _i: u64, _tier: Tier) -> Script {
+pub fn gen_c08(rng: &mut Rng, i: u64, tier: Tier) -> Script {
+    ALLOW_ALT258.with(|c| c.set(true));
+    let s = gen_c08_inner(rng, i, tier);
+    ALLOW_ALT258.with(|c| c.set(false));
+    s
+}
+
+fn gen_c08_inner(rng: &mut Rng, _i: u64, _tier: Tier) -> Script {
     let mut s = Script::new("C08", "dec");
     let zlib = rng.chance(1, 2);
     s.set("zlib", zlib as i64);
@@ -758,7 +828,7 @@ pub fn gen_c09_dec(rng: &mut Rng, i: u64, tier: Tier) -> Script {
     if i < sweeps {
         // deterministic family: all 65 536 headers x {flat, ring 2^8 .. 2^17}
         let mode_ix = i % 11;
-        let cfg = GenCfg { zlib: true, target: rng.range(1, 120), spec: Spec::None, max_dist: 200, edge: 0 };
+        let cfg = GenCfg { zlib: true, target: rng.range(1, 120), spec: Spec::None, max_dist: 200, edge: 0, alt258: false };
         let st = foreign::generate(rng, &cfg);
         s.set("entry", 0);
         s.set("family", 4);
@@ -904,4 +974,25 @@ pub fn defs() -> Vec<CheckDef> {
             assumptions: ASSUME,
         },
     ]
+}
+
+#[cfg(test)]
+mod tests {
+    use super::*;
+    #[test]
+    fn sized_streams_end_near_a_power_of_two() {
+        let mut r = Rng::new(11);
+        let mut near = 0;
+        for _ in 0..300 {
+            let zl = r.chance(1, 2);
+            let s = sized_stream(&mut r, zl);
+            let defl_end = if zl { s.bytes.len() - 4 } else { s.bytes.len() };
+            let a = defl_end % 256;
+            let b = (defl_end - if zl { 2 } else { 0 }) % 256;
+            if a == 0 || a >= 248 || b == 0 || b >= 248 {
+                near += 1;
+            }
+        }
+        assert!(near >= 290, "only {} of 300 sized streams end within 8 bytes below a multiple of 256", near);
+    }
 }
